@@ -41,12 +41,19 @@ class _FileBufferedContext(_CounterFuncContext):
 
     def __enter__(self):
         super().__enter__()
-        if self._buffer_capacity is not None:
+        buffer_capacity, self._buffer_capacity = self._buffer_capacity, None
+        if buffer_capacity is not None:
             self._original_buffer_capacitys.append(self._cls.get_buffer_capacity())
-            self._cls.set_buffer_capacity(self._buffer_capacity)
+            try:
+                # A smaller capacity flushes the buffer, which may raise.
+                self._cls.set_buffer_capacity(buffer_capacity)
+            except BaseException:
+                # __exit__ is not called if __enter__ raises, so the context
+                # must be left (and the capacity reset) here.
+                self.__exit__(*sys.exc_info())
+                raise
         else:
             self._original_buffer_capacitys.append(None)
-        self._buffer_capacity = None
 
     def __exit__(self, exc_type, exc_val, exc_tb):
         try:
